@@ -38,7 +38,7 @@ def run_one(m, tier):
                 if src.count(x["old"]) != 1:
                     return m, None, f"extra pattern occurs {src.count(x['old'])} times", 0
                 open(path, "w").write(src.replace(x["old"], x["new"]))
-        env = dict(os.environ, VERIF_REPO=d, PYTHONDONTWRITEBYTECODE="1", VERIF_VENV=os.path.join(HERE, ".venv"))
+        env = dict(os.environ, VERIF_REPO=d, PYTHONDONTWRITEBYTECODE="1", VERIF_VENV=os.environ.get("VERIF_VENV", os.path.join(HERE, ".venv")))
         t0 = time.time()
         cmd = [os.path.join(SNAP, "check"), m["property"], "--tier", tier, "--no-evidence"]
         if m.get("only"):
